@@ -556,7 +556,8 @@ def expand(template_path, repo, twin_suffix=None):
             j = i + 1
             while j < len(lines) and lines[j] != '}':
                 j += 1
-            meta.setdefault('probes', []).append(dict(name=name, out_start=len(out) + 1, out_end=len(out) + (j - i)))
+            fm = re.search(r'fn\s+(\w+)', '\n'.join(lines[i + 1:i + 4]))
+            meta.setdefault('probes', []).append(dict(name=name, fn=(fm.group(1) if fm else name), out_start=len(out) + 1, out_end=len(out) + (j - i)))
             i += 1
         elif s.startswith('//@'):
             raise ExtractError('unknown directive: ' + s)
